@@ -13,12 +13,31 @@ struct MItem {
     QString name;
     QString subscription;
     QStringList groups;
+    QString ask;              // subscription status (attribute "ask")
+    bool approved = false;    // pre-approved subscription
+    bool mixChannel = false;  // MIX annotation
+    QString mixPid;
     bool unknown = false;   // a "don't care" push (own full JID) touched it: not compared until the next full roster
 };
 
 static const char *kContacts[] = { "romeo@montague.example", "juliet@capulet.example", "mercutio@montague.example", "tybalt@capulet.example",
                                    "nurse@capulet.example", "benvolio@montague.example", "paris@verona.example", "laurence@friary.example" };
 static const char *kSubs[] = { "none", "to", "from", "both" };
+static QByteArray itemFlags(Prng &r)
+{
+    QByteArray x;
+    if (r.chance(0.15)) {
+        x += " ask='subscribe'";
+    }
+    if (r.chance(0.15)) {
+        x += " approved='true'";
+    }
+    return x;
+}
+static QByteArray itemMix(Prng &r)
+{
+    return r.chance(0.1) ? "<channel xmlns='urn:xmpp:mix:roster:0' participant-id='pid" + QByteArray::number((int)r.uniform(1000)) + "'/>" : QByteArray();
+}
 static const char *kNames[] = { "", "Romeo", "J.", "Friend \xc3\xa9", "x" };
 static const char *kGroups[] = { "Friends", "Family", "Work" };
 static const char *kResources[] = { "phone", "laptop", "orchard" };
@@ -184,6 +203,12 @@ public:
                                 m.groups << g.text();
                             }
                             m.groups.sort();
+                            m.ask = ie.attribute(QStringLiteral("ask"));
+                            const QString ap = ie.attribute(QStringLiteral("approved"));
+                            m.approved = ap == QLatin1String("true") || ap == QLatin1String("1");
+                            const QDomElement ch = ie.firstChildElement(QStringLiteral("channel"));
+                            m.mixChannel = !ch.isNull() && ch.namespaceURI() == QLatin1String("urn:xmpp:mix:roster:0");
+                            m.mixPid = m.mixChannel ? ch.attribute(QStringLiteral("participant-id")) : QString();
                             return m;
                         };
                         if (type == QLatin1String("result") && pendingRosterGets.contains(el.attribute(QStringLiteral("id")))) {
@@ -280,6 +305,11 @@ public:
                         const auto e = roster->getRosterEntry(it.key());
                         QStringList groups = e.groups().values();
                         groups.sort();
+                        if (e.subscriptionStatus() != it->ask || e.isApproved() != it->approved || e.isMixChannel() != it->mixChannel || e.mixParticipantId() != it->mixPid) {
+                            w.violation(QStringLiteral("roster_differs"), QStringLiteral("C12:entry_flags_differ"),
+                                        QStringLiteral("'%1': view ask='%2' approved=%3 mix=%4 pid='%5', model ask='%6' approved=%7 mix=%8 pid='%9'")
+                                            .arg(it.key(), e.subscriptionStatus()).arg(e.isApproved()).arg(e.isMixChannel()).arg(e.mixParticipantId(), it->ask).arg(it->approved).arg(it->mixChannel).arg(it->mixPid));
+                        }
                         if (e.name() != it->name || subName(e.subscriptionType()) != (it->subscription.isEmpty() ? QStringLiteral("notset") : it->subscription) || groups != it->groups) {
                             w.violation(QStringLiteral("roster_differs"), QStringLiteral("C12:entry_fields_differ"),
                                         QStringLiteral("'%1': view name='%2' sub=%3 groups=[%4], model name='%5' sub=%6 groups=[%7]")
@@ -322,11 +352,11 @@ public:
                                 if (*nm) {
                                     x += " name='" + QByteArray(nm) + "'";
                                 }
-                                x += " subscription='" + QByteArray(kSubs[r.uniform(4)]) + "'>";
+                                x += " subscription='" + QByteArray(kSubs[r.uniform(4)]) + "'" + itemFlags(r) + ">";
                                 if (r.chance(0.4)) {
                                     x += "<group>" + QByteArray(kGroups[r.uniform(3)]) + "</group>";
                                 }
-                                x += "</item>";
+                                x += itemMix(r) + "</item>";
                             }
                         }
                         x += "</query></iq>";
@@ -363,16 +393,46 @@ public:
                         QByteArray x = "<iq type='set' id='" + id.toUtf8() + "'" + (absent ? QByteArray() : " from='" + from.toUtf8() + "'") + " to='" + full.toUtf8() + "'><query xmlns='jabber:iq:roster'><item jid='" + QByteArray(kContacts[op.arg(2) % 8]) + "'";
                         if (op.arg(1)) {
                             x += " subscription='remove'/>";
+                        } else if (r.chance(0.3) && mItems.contains(QString::fromLatin1(kContacts[op.arg(2) % 8])) && !mItems[QString::fromLatin1(kContacts[op.arg(2) % 8])].unknown) {
+                            // the same item again, only one of the less prominent attributes differs (pre-approval, pending
+                            // subscription request, MIX annotation)
+                            MItem cur = mItems[QString::fromLatin1(kContacts[op.arg(2) % 8])];
+                            switch (r.uniform(3)) {
+                            case 0: cur.approved = !cur.approved; break;
+                            case 1: cur.ask = cur.ask.isEmpty() ? QStringLiteral("subscribe") : QString(); break;
+                            default:
+                                cur.mixChannel = !cur.mixChannel;
+                                cur.mixPid = cur.mixChannel ? QStringLiteral("pid%1").arg(r.uniform(1000)) : QString();
+                            }
+                            w.fault("push_changes_only_a_flag");
+                            if (!cur.name.isEmpty()) {
+                                x += " name='" + simxml::esc(cur.name).toUtf8() + "'";
+                            }
+                            x += " subscription='" + (cur.subscription.isEmpty() ? QByteArray("none") : cur.subscription.toUtf8()) + "'";
+                            if (!cur.ask.isEmpty()) {
+                                x += " ask='" + cur.ask.toUtf8() + "'";
+                            }
+                            if (cur.approved) {
+                                x += " approved='true'";
+                            }
+                            x += ">";
+                            for (const auto &g : std::as_const(cur.groups)) {
+                                x += "<group>" + simxml::esc(g).toUtf8() + "</group>";
+                            }
+                            if (cur.mixChannel) {
+                                x += "<channel xmlns='urn:xmpp:mix:roster:0' participant-id='" + cur.mixPid.toUtf8() + "'/>";
+                            }
+                            x += "</item>";
                         } else {
                             const char *nm = kNames[r.uniform(5)];
                             if (*nm) {
                                 x += " name='" + QByteArray(nm) + "'";
                             }
-                            x += " subscription='" + QByteArray(kSubs[r.uniform(4)]) + "'>";
+                            x += " subscription='" + QByteArray(kSubs[r.uniform(4)]) + "'" + itemFlags(r) + ">";
                             if (r.chance(0.4)) {
                                 x += "<group>" + QByteArray(kGroups[r.uniform(3)]) + "</group>";
                             }
-                            x += "</item>";
+                            x += itemMix(r) + "</item>";
                         }
                         x += "</query></iq>";
                         conn->sendStanza(x);
